@@ -46,8 +46,7 @@ theorem accepts_false_of_mem {g : Grammar} {st : Settings} {fuel : Nat} {m : Str
 
 /-! ### decomposition of `ruleErrors` into its six groups -/
 
-def nameErrs (r : Rule) : List String :=
-  if identOk r.name then [] else ["'" ++ r.name ++ "' cannot be used as a Rust identifier"]
+def nameErrs (r : Rule) : List String := nameErr r.name
 
 def fieldErrs (g : Grammar) (fuel : Nat) (r : Rule) : List String :=
   match getFields g fuel r.definition with | .err m => [m] | .fuel => ["fuel"] | .ok _ => []
@@ -56,8 +55,8 @@ def flagErrs (st : Settings) (r : Rule) : List String :=
   (if r.flags.exported && r.flags.string then ["@string rules cannot be @export-ed"] else []) ++
   (if r.name == "Whitespace" && !r.flags.noSkipWs then
     ["The 'Whitespace' rule (and all called rules) must be @no_skip_ws to prevent recursion"] else []) ++
-  (if r.flags.memoize && !st.derives.contains "Clone" then
-    ["@memoize can only be used if 'Clone' is in the derives set"] else [])
+  (if (r.flags.memoize || r.flags.leftRecursive) && !st.derives.contains "Clone" then
+    ["@memoize and @leftrec can only be used if 'Clone' is in the derives set"] else [])
 
 def kindErrs (g : Grammar) (fuel : Nat) (r : Rule) : List String :=
   match getFields g fuel r.definition with
@@ -76,6 +75,12 @@ def kindErrs (g : Grammar) (fuel : Nat) (r : Rule) : List String :=
     else if hasField fields "_override" then ["Mixing simple and override fields is not allowed."]
     else []
   | _ => []
+
+theorem nameErr_of_not_identOk {n : String} (h : identOk n = false) :
+    ("'" ++ n ++ "' cannot be used as a Rust identifier") ∈ nameErr n := by
+  simp [nameErr, h]
+
+theorem nameErr_crate : ("'crate' cannot be used as a rule or field name") ∈ nameErr "crate" := by decide
 
 theorem ruleErrors_eq (g : Grammar) (st : Settings) (fuel : Nat) (r : Rule) :
     ruleErrors g st fuel r =
@@ -151,7 +156,16 @@ theorem reject_memoize_without_clone {g : Grammar} {st : Settings} {fuel : Nat} 
     (hr : RuleEntry.rule r ∈ g.rules) (h : r.flags.memoize = true ∧ "Clone" ∉ st.derives) :
     accepts g st fuel = false := by
   refine accepts_false_of_ruleError
-    (m := "@memoize can only be used if 'Clone' is in the derives set") hr ?_
+    (m := "@memoize and @leftrec can only be used if 'Clone' is in the derives set") hr ?_
+  refine mem_ruleErrors.2 (Or.inr (Or.inr (Or.inl ?_)))
+  simp [flagErrs, h.1, h.2]
+
+/-- 3b. the same for `@leftrec` (its results are cloned out of the cache too; fix F11) -/
+theorem reject_leftrec_without_clone {g : Grammar} {st : Settings} {fuel : Nat} {r : Rule}
+    (hr : RuleEntry.rule r ∈ g.rules) (h : r.flags.leftRecursive = true ∧ "Clone" ∉ st.derives) :
+    accepts g st fuel = false := by
+  refine accepts_false_of_ruleError
+    (m := "@memoize and @leftrec can only be used if 'Clone' is in the derives set") hr ?_
   refine mem_ruleErrors.2 (Or.inr (Or.inr (Or.inl ?_)))
   simp [flagErrs, h.1, h.2]
 
@@ -386,14 +400,15 @@ theorem exprErrors_range_hi {g : Grammar} {n : Nat} {lo hi : StringItem} {m : St
 theorem exprErrors_field_type {g : Grammar} {n : Nat} {name : Option FieldName} {boxed : Bool} {typ : String}
     (h : identOk typ = false) :
     ("'" ++ typ ++ "' cannot be used as a Rust identifier") ∈ exprErrors g (n+1) (.field name boxed typ) := by
-  simp [exprErrors, h]
+  simp only [exprErrors, List.mem_append]
+  exact Or.inl (nameErr_of_not_identOk h)
 
 theorem exprErrors_field_name {g : Grammar} {n : Nat} {f : String} {boxed : Bool} {typ : String}
     (h : identOk f = false) :
     ("'" ++ f ++ "' cannot be used as a Rust identifier") ∈
       exprErrors g (n+1) (.field (some (.ident f)) boxed typ) := by
-  simp only [exprErrors, h, List.mem_append]
-  exact Or.inr (List.mem_singleton.2 rfl)
+  simp only [exprErrors, List.mem_append]
+  exact Or.inr (nameErr_of_not_identOk h)
 
 theorem exprErrors_incl_missing {g : Grammar} {n : Nat} {name : String} (h : g.findRule name = none) :
     ("Could not find normal (not char or extern) rule named " ++ name) ∈ exprErrors g (n+1) (.incl name) := by
@@ -495,7 +510,7 @@ theorem reject_bad_rule_name {g : Grammar} {st : Settings} {fuel : Nat} {r : Rul
     (hr : RuleEntry.rule r ∈ g.rules) (h : identOk r.name = false) : accepts g st fuel = false := by
   refine accepts_false_of_ruleError (m := "'" ++ r.name ++ "' cannot be used as a Rust identifier") hr ?_
   refine mem_ruleErrors.2 (Or.inl ?_)
-  simp [nameErrs, h]
+  exact nameErr_of_not_identOk h
 
 theorem mem_pathErrors {p : List String} {part : String} (hp : part ∈ p) (h : identOk part = false) :
     ("'" ++ part ++ "' cannot be used as a Rust identifier") ∈ pathErrors p := by
@@ -539,7 +554,8 @@ theorem reject_bad_field_type {g : Grammar} {st : Settings} {n : Nat} {r : Rule}
 theorem reject_bad_charRule_name {g : Grammar} {st : Settings} {fuel : Nat} {r : CharRule}
     (hr : RuleEntry.charRule r ∈ g.rules) (h : identOk r.name = false) : accepts g st fuel = false := by
   refine accepts_false_of_charRuleError (m := "'" ++ r.name ++ "' cannot be used as a Rust identifier") hr ?_
-  simp [charRuleErrors, h]
+  simp only [charRuleErrors, List.mem_append]
+  exact Or.inl (Or.inl (nameErr_of_not_identOk h))
 
 theorem reject_bad_charRule_check {g : Grammar} {st : Settings} {fuel : Nat} {r : CharRule} {p : List String}
     {part : String} (hr : RuleEntry.charRule r ∈ g.rules) (hp : p ∈ r.directives) (hpart : part ∈ p)
@@ -561,7 +577,8 @@ theorem reject_bad_charRule_item {g : Grammar} {st : Settings} {fuel : Nat} {r :
 theorem reject_bad_externRule_name {g : Grammar} {st : Settings} {fuel : Nat} {r : ExternRule}
     (hr : RuleEntry.externRule r ∈ g.rules) (h : identOk r.name = false) : accepts g st fuel = false := by
   refine accepts_false_of_externRuleError (m := "'" ++ r.name ++ "' cannot be used as a Rust identifier") hr ?_
-  simp [externRuleErrors, h]
+  simp only [externRuleErrors, List.mem_append]
+  exact Or.inl (Or.inl (nameErr_of_not_identOk h))
 
 theorem reject_bad_externRule_function {g : Grammar} {st : Settings} {fuel : Nat} {r : ExternRule}
     {part : String} (hr : RuleEntry.externRule r ∈ g.rules) (hpart : part ∈ r.function)
